@@ -65,6 +65,10 @@ _CURRENT = None      # the World receiving recorded __finalize__ calls
 # operation -> method names pandas 3.0.6 passes to TableDataFrame.__finalize__ (union over the data paths seen in
 # thorough runs of seeds 0-3); a difference is reported in the evidence notes, it is not an alarm
 FINALIZE_TABLE = {
+    "astype_nullable": ["astype"],
+    "assign_ext": ["copy"],
+    "tz_localize": ["copy"],
+    "convert_dtypes": ["convert_dtypes"],
     "concat_late_shared": ["concat"],
     "concat_late_clash": ["concat"],
     "assign_retype": ["copy"],
@@ -377,12 +381,29 @@ def install():
 
 # --------------------------------------------------------------------------- generators
 
-UNITS = {"f": ["m", "kg", "-", "s"], "i": ["-", "mm", "N"], "O": ["text"], "b": ["onoff"], "M": ["datetime", "-"]}
+UNITS = {"f": ["m", "kg", "-", "s"], "i": ["-", "mm", "N"], "O": ["text"], "b": ["onoff"], "M": ["datetime", "-"],
+         # pandas extension dtypes: nullable Int64 / Float64 / boolean, tz-aware datetime, category, string
+         "I": ["-", "mm", "pcs"], "F": ["kg", "mm", "-"], "B": ["onoff"], "Z": ["datetime", "-"], "C": ["text"],
+         "S": ["text"]}
+EXT_DTYPE = {"I": "Int64", "F": "Float64", "B": "boolean", "C": "category", "S": "string"}
+NP_DTYPE = {"f": "float64", "i": "int64", "O": "object", "b": "bool", "M": "datetime64[ns]"}
+BASE_KIND = {"I": "i", "F": "f", "B": "b", "Z": "M", "C": "O", "S": "O"}
+
+
+def fresh(u):
+    """an equal unit string that is a different object (CPython shares only 0/1-character strings): units read
+    from two files, or computed, are equal but never identical"""
+    return "".join(list(u))
 COLS = ["a", "b", "c", "d", "e", "g"]
 
 
 def gen_column(rng, kind, n):
     import pandas as pd
+    if kind in EXT_DTYPE:
+        return pd.array(gen_column(rng, BASE_KIND[kind], n), dtype=EXT_DTYPE[kind])
+    if kind == "Z":
+        return pd.DatetimeIndex(gen_column(rng, "M", n)).tz_localize("UTC") if n else \
+            pd.DatetimeIndex([], dtype="datetime64[ns, UTC]")
     if kind == "f":
         return [float(rng.choice([0.5, 1.0, 2.0, 3.5, -1.0, 10.0])) for _ in range(n)]
     if kind == "i":
@@ -409,6 +430,10 @@ def gen_origin(rng, loc_counter):
     return TableOrigin(operation="made up", parents=[leaf(), leaf()])
 
 
+class SetupRefused(Exception):
+    """pdtable refused to build a table whose units go with its dtype kinds"""
+
+
 def gen_table(rng, loc_counter, name=None, cols=None, nrows=None, force=None):
     """a random small table; `cols` = list of (label, kind, unit) to force a header"""
     import pandas as pd
@@ -422,18 +447,24 @@ def gen_table(rng, loc_counter, name=None, cols=None, nrows=None, force=None):
         cols = []
         for l in labels:
             kind = rng.choice(["f", "f", "i", "O", "b", "M"])
+            if rng.random() < 0.2:
+                kind = rng.choice(["I", "F", "B", "Z", "C", "S"])
             cols.append((l, kind, rng.choice(UNITS[kind])))
     data = {l: gen_column(rng, kind, n) for l, kind, _ in cols}
     df = pd.DataFrame(data)
     if n == 0:
         for l, kind, _ in cols:   # keep the intended dtypes on empty frames
-            df[l] = df[l].astype({"f": "float64", "i": "int64", "O": "object", "b": "bool", "M": "datetime64[ns]"}[kind])
+            if kind in NP_DTYPE:
+                df[l] = df[l].astype(NP_DTYPE[kind])
     kw = {}
     if rng.random() < 0.15 or force.get("nonstrict"):
         kw["strict_types"] = False
     dests = set(rng.sample(["all", "d1", "d2", "x"], rng.choice([1, 1, 2, 3])))
-    t = Table(df, name=name or rng.choice(["t", "tab", "é_1", "foo"]), units=[u for _, _, u in cols],
-              destinations=dests, origin=gen_origin(rng, loc_counter), **kw)
+    try:
+        t = Table(df, name=name or rng.choice(["t", "tab", "é_1", "foo"]), units=[fresh(u) for _, _, u in cols],
+                  destinations=dests, origin=gen_origin(rng, loc_counter), **kw)
+    except Exception as e:  # noqa: BLE001 — every generated header pairs special units with their own dtype kind
+        raise SetupRefused(type(e).__name__, [[l, str(df[l].dtype), df[l].dtype.kind, u] for l, _, u in cols]) from e
     cm = t.column_metadata
     for l, _, _ in cols:
         x = rng.random()
@@ -544,6 +575,42 @@ def _ops():
     def _(rng, d, mk):
         m = {c: ("float64" if d[c].dtype.kind == "i" else "float32") for c in _numeric(d)}
         return [d], lambda: d.astype(m)
+
+    @op("astype_nullable", True)
+    def _(rng, d, mk):
+        # same dtype kind, pandas extension dtype: the unit must be kept
+        m = {}
+        for c in d.columns:
+            k = d[c].dtype.kind
+            if k == "i":
+                m[c] = rng.choice(["Int64", "Float64"])
+            elif k == "f":
+                m[c] = "Float64"
+            elif k == "b":
+                m[c] = "boolean"
+            elif k == "O":
+                m[c] = rng.choice(["string", "category"])
+        return [d], lambda: d.astype(m)
+
+    @op("assign_ext", True)
+    def _(rng, d, mk):
+        kind = rng.choice(["I", "F", "B", "Z", "C", "S"])
+        vals = gen_column(rng, kind, len(d))
+        if kind in ("I", "B") and len(d) > 1 and rng.random() < 0.5:
+            vals[0] = pd.NA
+        return [d], lambda: d.assign(nx=vals)
+
+    @op("tz_localize", True)
+    def _(rng, d, mk):
+        cs = [c for c in d.columns if d[c].dtype.kind == "M" and getattr(d[c].dtype, "tz", None) is None]
+        if not cs:   # no naive datetime column: bring one in first, then localize it
+            ts = pd.to_datetime(["2021-06-30"] * len(d))
+            return [d], lambda: d.assign(tz_src=ts).assign(tz_src=lambda x: x["tz_src"].dt.tz_localize("UTC"))
+        c = rng.choice(cs)
+        return [d], lambda: d.assign(**{c: d[c].dt.tz_localize("UTC")})
+
+    @op("convert_dtypes", False)
+    def _(rng, d, mk): return [d], lambda: d.convert_dtypes()
 
     @op("astype_str", True)
     def _(rng, d, mk):
@@ -1219,56 +1286,61 @@ def run_case(seed, stream, index, ops):
             "plan": [[ops[i][0], [list(m) for m in ms]] for i, ms in plan]}
     res = CaseResult(case)
     res.world = world
-    # all tables of the case are made up front (the model allocates the initial infos first)
-    t0 = gen_table(rng, loc_counter, nrows=rng.choice([2, 3, 3, 4, 0]) if rng.random() < 0.25 else rng.choice([2, 3, 4]))
-    world.add_table(t0)
-    extra = []
-    hdr = header_of(t0)
-    n0 = len(t0.df)
-    for i, (oi, _) in enumerate(plan):
-        if ops[oi][2] > 2:
-            # 2-3 further tables sharing columns (m1, m2) the first table lacks; with "clash" two of the
-            # LATER tables disagree on the unit of m1 (whichever pair), otherwise all agree
-            kind = ops[oi][0]
-            k = rng.choice([2, 3])
-            have_m1 = sorted(rng.sample(range(k), 2)) if k == 3 and rng.random() < 0.5 else list(range(k))
-            clash_at = rng.choice(have_m1[1:]) if kind == "concat_late_clash" else None
-            us = []
-            for j in range(k):
-                cols = [hdr[0]] if rng.random() < 0.7 else []
-                if j in have_m1:
-                    cols.append(("m1", "f", "g" if j == clash_at else "kg"))
-                if rng.random() < 0.6 or not cols:
-                    cols.append(("m2", "i", "N"))
-                u = gen_table(rng, loc_counter, name="u%d_%d" % (i, j), cols=cols)
+    try:
+        # all tables of the case are made up front (the model allocates the initial infos first)
+        t0 = gen_table(rng, loc_counter, nrows=rng.choice([2, 3, 3, 4, 0]) if rng.random() < 0.25 else rng.choice([2, 3, 4]))
+        world.add_table(t0)
+        extra = []
+        hdr = header_of(t0)
+        n0 = len(t0.df)
+        for i, (oi, _) in enumerate(plan):
+            if ops[oi][2] > 2:
+                # 2-3 further tables sharing columns (m1, m2) the first table lacks; with "clash" two of the
+                # LATER tables disagree on the unit of m1 (whichever pair), otherwise all agree
+                kind = ops[oi][0]
+                k = rng.choice([2, 3])
+                have_m1 = sorted(rng.sample(range(k), 2)) if k == 3 and rng.random() < 0.5 else list(range(k))
+                clash_at = rng.choice(have_m1[1:]) if kind == "concat_late_clash" else None
+                us = []
+                for j in range(k):
+                    cols = [hdr[0]] if rng.random() < 0.7 else []
+                    if j in have_m1:
+                        cols.append(("m1", "f", "g" if j == clash_at else "kg"))
+                    if rng.random() < 0.6 or not cols:
+                        cols.append(("m2", "i", "N"))
+                    u = gen_table(rng, loc_counter, name="u%d_%d" % (i, j), cols=cols)
+                    world.add_table(u)
+                    us.append(u)
+                extra.append(us)
+            elif ops[oi][2] > 1:
+                kind = ops[oi][0]
+                nrows = n0 if "cols" in kind or kind == "join" else None
+                if kind in ("concat_rows", "concat_rows_3", "concat_cols_dup"):
+                    cols = list(hdr)
+                elif kind == "concat_rows_mixed":
+                    cols = hdr[: max(1, len(hdr) - 1)] + [("x1", "f", "N")]
+                elif kind in ("concat_cols", "join"):
+                    cols = [("p", "f", "kg"), ("q", "O", "text")]
+                elif kind == "concat_clash":
+                    cols = [(l, k, (u + "X") if j == 0 and u not in SPECIAL else u) for j, (l, k, u) in enumerate(hdr)]
+                    if hdr[0][2] in SPECIAL:
+                        cols = list(hdr)         # no clash possible on a special unit: plain concat
+                elif kind in ("merge_key", "merge_fn"):
+                    cols = [hdr[0], ("r1", "f", "N")] + ([(hdr[1][0], hdr[1][1], "other")] if len(hdr) > 1 and hdr[1][2] not in SPECIAL else [])
+                elif kind == "merge_clash":
+                    l, k, u = hdr[0]
+                    cols = [(l, k, u + "X" if u not in SPECIAL else u), ("r1", "f", "N")]
+                else:
+                    cols = None
+                u = gen_table(rng, loc_counter, name="u%d" % i, cols=cols, nrows=nrows)
                 world.add_table(u)
-                us.append(u)
-            extra.append(us)
-        elif ops[oi][2] > 1:
-            kind = ops[oi][0]
-            nrows = n0 if "cols" in kind or kind == "join" else None
-            if kind in ("concat_rows", "concat_rows_3", "concat_cols_dup"):
-                cols = list(hdr)
-            elif kind == "concat_rows_mixed":
-                cols = hdr[: max(1, len(hdr) - 1)] + [("x1", "f", "N")]
-            elif kind in ("concat_cols", "join"):
-                cols = [("p", "f", "kg"), ("q", "O", "text")]
-            elif kind == "concat_clash":
-                cols = [(l, k, (u + "X") if j == 0 and u not in SPECIAL else u) for j, (l, k, u) in enumerate(hdr)]
-                if hdr[0][2] in SPECIAL:
-                    cols = list(hdr)         # no clash possible on a special unit: plain concat
-            elif kind in ("merge_key", "merge_fn"):
-                cols = [hdr[0], ("r1", "f", "N")] + ([(hdr[1][0], hdr[1][1], "other")] if len(hdr) > 1 and hdr[1][2] not in SPECIAL else [])
-            elif kind == "merge_clash":
-                l, k, u = hdr[0]
-                cols = [(l, k, u + "X" if u not in SPECIAL else u), ("r1", "f", "N")]
+                extra.append(u)
             else:
-                cols = None
-            u = gen_table(rng, loc_counter, name="u%d" % i, cols=cols, nrows=nrows)
-            world.add_table(u)
-            extra.append(u)
-        else:
-            extra.append(None)
+                extra.append(None)
+    except SetupRefused as e:
+        res.fail("a table whose units agree with the dtype kinds of its columns was refused at construction",
+                 {"exc": e.args[0], "columns": e.args[1]}, "a table frame", key="table_construction_refused")
+        return res
     frames = [t0.df]
     for u in extra:
         if isinstance(u, list):
